@@ -19,7 +19,8 @@ CLAIM = dict(
          "(length options), path, int (signed, fixed_digits, min/max), any, uuid, and float over a stated contract of float()/str(); "
          "unquote(quote s) = s and int(str n) = n; C04_build_then_match / C04_match_then_build (in a map whose rules have distinct literal first "
          "segments the delivered built URL is matched by the building rule with exactly the built values, and rebuilding from the match gives "
-         "the same URL). Tied to the code by the regenerated safe= strings, regex texts and decision functions of coq/C03/Gen.v and by "
+         "the same URL), C04_build_match_build_subdomain (the same with a subdomain / host part on the rules and with float values, read through the "
+         "float contract). Tied to the code by the regenerated safe= strings, regex texts and decision functions of coq/C03/Gen.v and by "
          "differential execution (extracted model vs werkzeug) of to_url / unquote / to_python, MapAdapter.build and build-then-match.",
     note="Trusted: as C03; float(str(x)) = x and the shape of str(x) on positional floats are a Section contract validated by the harness; "
          "uuid values are carried as their 32 hex digits; query-string extras (werkzeug.urls._urlencode / parse_qsl) and maps built through "
@@ -447,7 +448,7 @@ def main(chk: Check) -> None:
     except px.Unsupported as e:
         chk.broken("translator", "C03/Gen.v", str(e))
     chk.forbidden_scan()
-    if chk.coq_make(["C04/Proofs.vo", "C04/MapProofs.vo", "C04/Extract.vo"]):
+    if chk.coq_make(["C04/Proofs.vo", "C04/MapProofs.vo", "C04/SubdomainProofs.vo", "C04/Extract.vo"]):
         chk.audit_props("C04/Props.v")
     else:
         chk.cov["obligations"] += 1
